@@ -132,4 +132,84 @@ theorem C18_outputstream_copies :
 example : unmarshal (marshal ⟨[⟨5, 1, [104, 105], [(3, true), (9, true)]⟩, ⟨5, 2, [], []⟩], noNext⟩) =
     some ⟨[⟨5, 1, [104, 105], [(3, true), (9, true)]⟩, ⟨5, 2, [], []⟩], noNext⟩ := by decide
 
+/-! ## non-vacuity -/
+
+namespace Ex
+
+/-- a batch of three messages (several recipients, empty and non-empty payloads) pointing to a successor -/
+def b1 : Batch := ⟨[⟨5, 1, [104, 105], [(3, true), (9, true)]⟩, ⟨5, 2, [], []⟩,
+  ⟨5, 3, [80, 73, 78, 71], [(18446744073709551615, true)]⟩], 12⟩
+
+theorem wf_b1 : WfBatch b1 := by unfold WfBatch WfMsg b1; decide
+
+/-- `C18_batch_roundtrip` instantiated: both hypotheses hold for `b1` -/
+example : unmarshal (marshal b1) = some b1 := C18_batch_roundtrip b1 wf_b1 (by unfold b1; decide)
+
+/-- the tail batch (`next = noNext`) is well-formed as well -/
+example : unmarshal (marshal { b1 with next := noNext }) = some { b1 with next := noNext } :=
+  C18_batch_roundtrip _ (by unfold WfBatch WfMsg b1; decide) (by unfold b1; decide)
+
+/-- a batch with a `false` recipient flag: well-formed, but the flag hypothesis of
+`C18_batch_roundtrip` fails and the flag really comes back as `true` -/
+def b2 : Batch := ⟨[⟨7, 1, [120], [(3, false), (4, true)]⟩, ⟨7, 2, [], [(3, true)]⟩], noNext⟩
+
+theorem wf_b2 : WfBatch b2 := by unfold WfBatch WfMsg b2; decide
+
+example : unmarshal (marshal b2) =
+    some ⟨[⟨7, 1, [120], [(3, true), (4, true)]⟩, ⟨7, 2, [], [(3, true)]⟩], noNext⟩ :=
+  C18_batch_roundtrip_keys b2 wf_b2
+
+example : unmarshal (marshal b2) ≠ some b2 := by decide
+
+/-- `WfBatch` is not vacuous the other way either: an id that does not fit 64 bits is not well-formed
+and does not round-trip -/
+example : ¬ WfBatch ⟨[⟨18446744073709551616, 1, [], []⟩], noNext⟩ := by unfold WfBatch WfMsg; decide
+
+/-- a fully populated record: every field path holds a distinct atom (the timestamp is a `ts`) -/
+def rec : Rec := fun f => some (.atom f)
+
+example : applyCopies decFromBytes (applyCopies encProtoMessage rec) "Session.Id" = some (.atom "Session.Id") :=
+  C18_msg_pb_roundtrip rec "Session.Id" (by decide)
+
+example : applyCopies decFromBytes (applyCopies encProtoMessage rec) "UnixNano" = some (.atom "UnixNano") :=
+  C18_msg_pb_roundtrip rec "UnixNano" (by decide)
+
+example : applyCopies decFromBytes (applyCopies encCopyToProto rec) "Servers" = some (.atom "Servers") :=
+  C18_msg_pb_roundtrip_copy rec "Servers" (by decide)
+
+/-- the tables the two theorems speak about are the populated regenerated ones, not the `[]`
+default of `lookup` (for which `applyCopies` would be constantly `none`) -/
+example : encProtoMessage.length = 12 ∧ encCopyToProto.length = 12 ∧ decFromBytes.length = 12 := by decide
+
+/-- the field that is *not* part of the replicated format does not come back -/
+example : applyCopies decFromBytes (applyCopies encProtoMessage rec) "InterestingFor" = none := by decide
+
+def wStore : String × List CopyFact :=
+  ("internal/raftstore:LevelDBStore.StoreLogs", lookup "internal/raftstore:LevelDBStore.StoreLogs" Gen.Copies.pb_RaftLog_from_raft_Log)
+def wApply : String × List CopyFact :=
+  ("main:FSM.Apply", lookup "main:FSM.Apply" Gen.Copies.pb_RaftLog_from_raft_Log)
+def rGetLog : String × List CopyFact :=
+  ("internal/raftstore:LevelDBStore.GetLog", lookup "internal/raftstore:LevelDBStore.GetLog" Gen.Copies.raft_Log_from_pb_RaftLog)
+def rSnapshot : String × List CopyFact :=
+  ("main:FSM.Snapshot", lookup "main:FSM.Snapshot" Gen.Copies.raft_Log_from_pb_RaftLog)
+
+/-- `C18_raftlog_roundtrip` instantiated with named writer/reader pairs of the regenerated tables;
+`AppendedAt` goes through `timestamppb.New` / `AsTime` -/
+example : applyCopies rGetLog.2 (applyCopies wStore.2 rec) "AppendedAt" = some (.atom "AppendedAt") :=
+  C18_raftlog_roundtrip wStore rGetLog (by decide) (by decide) rec "AppendedAt" (by decide)
+
+example : applyCopies rSnapshot.2 (applyCopies wApply.2 rec) "Type" = some (.atom "Type") :=
+  C18_raftlog_roundtrip wApply rSnapshot (by decide) (by decide) rec "Type" (by decide)
+
+/-- `C18_id_default`, both branches on a populated message -/
+example : fromBytes ⟨0, 0, 7, 2, 6, [80], 1700000000000000000, [[104]], [104], 99, 3, [49]⟩ 41 =
+    ⟨41, 0, 7, 2, 6, [80], 1700000000000000000, [[104]], [104], 99, 3, [49]⟩ :=
+  (C18_id_default _ 41).2 rfl
+
+example : fromBytes ⟨40, 0, 7, 2, 6, [80], 1700000000000000000, [[104]], [104], 99, 3, [49]⟩ 41 =
+    ⟨40, 0, 7, 2, 6, [80], 1700000000000000000, [[104]], [104], 99, 3, [49]⟩ :=
+  (C18_id_default _ 41).1 (by decide)
+
+end Ex
+
 end Robust.Props.C18
